@@ -17,6 +17,10 @@ def main(tier, seed):
             jobs.append(("props.flow", "run_scenario", (n, dict(policy="fifo", k=k, oracles=("c02",), targets="acts", skip_running_acts=True, part=(i, parts),
                                                                  max_paths=600 if tier == "quick" else 20000, seed=seed), "C02")))
         jobs.append(("props.flow", "run_scenario", (n, dict(policy="lifo", k=1, oracles=("c02",), targets="all", skip_running_acts=True, max_paths=400, seed=seed), "C02")))
+    # longer histories over a small vocabulary: complete / back / cancel / error on a two-step flow (back followed by cancel of the old instance etc.)
+    for i in range(4):
+        jobs.append(("props.flow", "run_scenario", ("two_steps", dict(policy="fifo", k=3 if tier == "quick" else 4, kinds=["Next", "Back", "Cancel", "Error"], oracles=("c02",), targets="acts",
+                                                                     skip_running_acts=True, part=(i, 4), max_paths=1500 if tier == "quick" else 20000, seed=seed), "C02")))
     c.run_jobs(jobs)
     return c.finish(
         rule="one path = scenario x valuation class of the symbolic inputs x (target task, symbolic action kind) per script step x schedule",
